@@ -33,4 +33,6 @@ var Targets = []Target{
 	{Dir: eng + "services/remedies", Type: "StrategyBasedQueuePlugin", Pkg: "remedies", Only: []string{"queues"}},
 	{Dir: eng + "services/remedies", Type: "StrategyBasedThrottlingPlugin", Pkg: "remedies"},
 	{Dir: eng + "utils/limit", Type: "RateLimitState", Pkg: "limit"},
+	// get-or-create of the per-endpoint limiter (concurrency-based throttling) and other shared maps
+	{Dir: tk + "concurrentmap", Type: "ConcurrentMap", Pkg: "concurrentmap"},
 }
